@@ -9,14 +9,9 @@ impl IndexBuilder for PostgresQueryBuilder {
         sql: &mut dyn SqlWriter,
     ) {
         if let Some(name) = &create.index.name {
-            write!(
-                sql,
-                "CONSTRAINT {}{}{} ",
-                self.quote().left(),
-                name,
-                self.quote().right()
-            )
-            .unwrap();
+            write!(sql, "CONSTRAINT ").unwrap();
+            Alias::new(name).prepare(sql.as_writer(), self.quote());
+            write!(sql, " ").unwrap();
         }
 
         self.prepare_index_prefix(create, sql);
@@ -47,14 +42,7 @@ impl IndexBuilder for PostgresQueryBuilder {
         }
 
         if let Some(name) = &create.index.name {
-            write!(
-                sql,
-                "{}{}{}",
-                self.quote().left(),
-                name,
-                self.quote().right()
-            )
-            .unwrap();
+            Alias::new(name).prepare(sql.as_writer(), self.quote());
         }
 
         write!(sql, " ON ").unwrap();
@@ -104,14 +92,7 @@ impl IndexBuilder for PostgresQueryBuilder {
             }
         }
         if let Some(name) = &drop.index.name {
-            write!(
-                sql,
-                "{}{}{}",
-                self.quote().left(),
-                name,
-                self.quote().right()
-            )
-            .unwrap();
+            Alias::new(name).prepare(sql.as_writer(), self.quote());
         }
     }
 
